@@ -286,6 +286,18 @@ def make_layout(rng, volumes=None, home_own_volume=None, uid=None, xdg=None,
         order = list(L.mounts) + [rng.choice(L.mounts)]
         rng.shuffle(order)
         L.extra['partition_order_rel'] = order
+    if rng.random() < 0.1:
+        # a set-uid wrapper: the effective uid is not the real one ($uid of the
+        # specification is the real one)
+        L.extra['euid'] = rng.choice([u for u in (0, 1000, 4242) if u != L.uid])
+    if len(L.mounts) > 1 and rng.random() < 0.15:
+        # inode numbers are per file system: the trash directories of two
+        # volumes (and the home trash) carry the same number
+        cands = [c for c in [L.home_trash()] if c]
+        for m in L.mounts:
+            cands += [L.vol_path(m, '.Trash-%d' % L.uid),
+                      L.vol_path(m, '.Trash/%d' % L.uid)]
+        L.extra['same_ino_rel'] = cands
     L.cwd = L.home
     return L
 
